@@ -253,6 +253,6 @@ def read (o : Opts) (content : Str) : Except PErr (List RCue) :=
 
 /-- `_encode_illegal_characters` -/
 def encodeIllegal (s : Str) : Str :=
-  replace "-->".toList "--&gt;".toList (replace "<".toList "&lt;".toList (replace "&".toList "&amp;".toList s))
+  Generated.vttEscapes.foldl (fun acc p => replace p.1.toList p.2.toList acc) s
 
 end PcVerif.Vtt
